@@ -27,6 +27,10 @@ func NewElapsed(style TimeStyle, start time.Time, wcc ...WC) Decorator {
 		if !s.Completed && !s.Aborted {
 			msg = producer(time.Since(start))
 		}
+		if msg == "" {
+			// first frame of a bar which has finished already
+			msg = producer(time.Since(start))
+		}
 		return msg
 	}
 	return Any(fn, wcc...)
